@@ -74,11 +74,12 @@ fn bad_entry(rng: &mut Rng) -> Bad {
 struct FileBuild {
     text: String,
     lines: usize,
+    ws_blanks: bool,
 }
 
 impl FileBuild {
     fn new() -> Self {
-        FileBuild { text: String::new(), lines: 0 }
+        FileBuild { text: String::new(), lines: 0, ws_blanks: false }
     }
     fn push(&mut self, s: &str) {
         self.lines += s.matches('\n').count();
@@ -86,7 +87,13 @@ impl FileBuild {
     }
     fn blank(&mut self, n: usize) {
         for _ in 0..n {
-            self.push("\n");
+            // a blank line may consist of spaces and tabs
+            if self.ws_blanks {
+                let l = ["  \n", "\t\n", "\n", "    \t \n"][self.lines % 4];
+                self.push(l);
+            } else {
+                self.push("\n");
+            }
         }
     }
     fn valid_run(&mut self, rng: &mut Rng, max: usize) {
@@ -154,6 +161,7 @@ impl Check for C14 {
         for level in 0..=depth {
             let crlf_lead = rng.usize(3);
             let b = &mut builds[level];
+            b.ws_blanks = rng.chance(1, 3);
             b.blank(crlf_lead);
             // the alias-conflict entry needs Assets:Cash to be in use before it
             if bad.kind == "alias-conflict" && level == 0 {
@@ -256,7 +264,7 @@ impl Check for C14 {
     fn rule(&self) -> String {
         "Each case: a tree of 1-3 files (root, file included by the root, file included by that one; the deepest name has a space and a non-ASCII letter). Every \
          file starts with 0-2 blank lines and 0-4 valid entries from a pool (transactions, multi-line and multi-byte comments, account / commodity declarations, \
-         metadata, apply tag, an include of a zero-byte file), separated by 1-3 (one in six: 4-8) blank lines, each file independently LF or CRLF; the deepest file then holds exactly one invalid entry followed by \
+         metadata, apply tag, an include of a zero-byte file), separated by 1-3 (one in six: 4-8) blank lines (in one file in three the blank lines hold spaces and tabs), each file independently LF or CRLF; the deepest file then holds exactly one invalid entry followed by \
          0-2 valid ones; the including files hold the include line followed by more valid content. Invalid entry: semantic (unbalanced in 1 or 3 commodities, false \
          assertion, two unconstrained postings, zero rate, cost in the amount's commodity, alias conflicting with a used account) or syntactic (impossible date, \
          `1,23`, unclosed `(`, unclosed `{`, dangling `@`, garbage line (long and 3 bytes short), malformed last posting of a 6-10 line entry, orphan posting / orphan multi-byte note after a blank line), optionally with a note line \
